@@ -20,7 +20,7 @@ static inline std::string gen_textline(Rng &r)
 }
 
 // a pattern from the RefRegex grammar, conservative about nullable repetition
-static inline std::string gen_atom(Rng &r, bool allow_group);
+static inline std::string gen_atom(Rng &r, bool allow_group, bool allow_quant = true);
 static inline std::string gen_literal(Rng &r)
 {
 	int k = (int) r.below(12);
@@ -29,18 +29,23 @@ static inline std::string gen_literal(Rng &r)
 	if (k == 10) return utf8_enc(0xe9);
 	return utf8_enc(0x4e2d);
 }
-static inline std::string gen_seq(Rng &r, int maxn, bool allow_group)
+static inline std::string gen_seq(Rng &r, int maxn, bool allow_group, bool allow_quant = true)
 {
 	std::string s;
 	int n = (int) r.range(1, maxn);
-	for (int i = 0; i < n; i++) s += gen_atom(r, allow_group);
+	for (int i = 0; i < n; i++) s += gen_atom(r, allow_group, allow_quant);
 	return s;
 }
-static inline std::string gen_atom(Rng &r, bool allow_group)
+static inline std::string gen_atom(Rng &r, bool allow_group, bool allow_quant)
 {
 	int k = (int) r.below(allow_group ? 16 : 13);
 	std::string a;
 	bool single = true;
+	// A quantifier inside a quantified group ((b.+)*, (a.*)+) makes a backtracking matcher take exponential
+	// time on lines of a few dozen characters: how long a match takes is not the subject of these checks,
+	// so a group that gets a repetition has an unquantified body
+	int q = allow_quant ? (int) r.below(10) : 9;
+	bool inner = q > 3;
 	if (k < 6) a = gen_literal(r);
 	else if (k == 6) a = ".";
 	else if (k == 7) a = r.chance(1, 2) ? "[ab]" : "[a-c]";
@@ -49,11 +54,10 @@ static inline std::string gen_atom(Rng &r, bool allow_group)
 	else if (k <= 12) { a = gen_literal(r); }
 	// group bodies start with a mandatory character, so that a quantified group is never nullable
 	// (what an empty iteration captures differs between backtracking engines and is not in the statement)
-	else if (k == 13) { a = "(" + gen_literal(r) + (r.chance(1, 2) ? gen_seq(r, 1, false) : std::string()) + ")"; single = false; }
-	else if (k == 14) { a = "(" + gen_literal(r) + (r.chance(1, 2) ? gen_seq(r, 1, false) : std::string()) + "|" + gen_literal(r) + (r.chance(1, 2) ? gen_seq(r, 1, false) : std::string()) + ")"; single = false; }
+	else if (k == 13) { a = "(" + gen_literal(r) + (r.chance(1, 2) ? gen_seq(r, 1, false, inner) : std::string()) + ")"; single = false; }
+	else if (k == 14) { a = "(" + gen_literal(r) + (r.chance(1, 2) ? gen_seq(r, 1, false, inner) : std::string()) + "|" + gen_literal(r) + (r.chance(1, 2) ? gen_seq(r, 1, false, inner) : std::string()) + ")"; single = false; }
 	else { a = "(" + gen_literal(r) + gen_literal(r) + ")"; single = false; }
 	(void) single;
-	int q = (int) r.below(10);
 	if (q == 0) a += "*";
 	else if (q == 1) a += "+";
 	else if (q == 2) a += "?";
